@@ -147,6 +147,12 @@ pub fn scenarios() -> Vec<Scenario> {
             tables: vec!["s", "r"],
             cfg: Cfg { cache: 12, ..cfg },
         },
+        // cold cache: the setup ends with a checkpoint, so every page is first touched by the clients
+        Scenario { name: "cold-insert-vs-scan", what: "cold cache (checkpoint last): an insert and a reader first touch the same pages", setup: { let mut v = base(); v.push("#flush".into()); v }, clients: vec![vec![auto("INSERT INTO a VALUES (3, 30)")], vec![auto("SELECT * FROM a")]], tables: vec!["a", "b"], cfg },
+        Scenario { name: "cold-writers-same-table", what: "cold cache: two inserters into one table", setup: { let mut v = base(); v.push("#flush".into()); v }, clients: vec![vec![auto("INSERT INTO a VALUES (3, 30)")], vec![auto("INSERT INTO a VALUES (4, 40)")]], tables: vec!["a", "b"], cfg },
+        Scenario { name: "cold-update-vs-delete", what: "cold cache: an update and a delete of different rows of one table", setup: { let mut v = base(); v.push("#flush".into()); v }, clients: vec![vec![auto("UPDATE a SET v = 11 WHERE k = 1")], vec![auto("DELETE FROM a WHERE k = 2")]], tables: vec!["a", "b"], cfg },
+        Scenario { name: "cold-unique-insert-vs-lookup", what: "cold cache: insert into and index lookup on a table with a unique index", setup: { let mut v = uniq(); v.push("#flush".into()); v }, clients: vec![vec![auto("INSERT INTO x VALUES (3, 30)")], vec![auto("SELECT * FROM x WHERE k = 2")]], tables: vec!["x", "a"], cfg },
+        Scenario { name: "cold-ddl-vs-dml", what: "cold cache: CREATE TABLE and an insert into another table (both first touch the catalog pages)", setup: { let mut v = base(); v.push("#flush".into()); v }, clients: vec![vec![auto("CREATE TABLE c (k INT)")], vec![auto("INSERT INTO a VALUES (3, 30)")]], tables: vec!["a", "b"], cfg },
         Scenario {
             name: "three-clients",
             what: "two inserters on different tables and a reader",
@@ -236,6 +242,11 @@ pub fn fresh_db(sc: &Scenario) -> Result<(Arc<Database>, std::path::PathBuf), St
     let p = Db::path_in(&dir);
     let db = Database::create(&p, sc.cfg.to_db()).map_err(|e| format!("create: {e}"))?;
     for s in &sc.setup {
+        // "#flush": a checkpoint, which also empties the page cache (the clients then start on a cold cache)
+        if s == "#flush" {
+            db.flush().map_err(|e| format!("setup flush: {e}"))?;
+            continue;
+        }
         db.execute(s).map_err(|e| format!("setup `{s}`: {e}"))?;
     }
     Ok((Arc::new(db), dir))
